@@ -83,7 +83,7 @@ pub uninterp spec fn issued_objects(m: Map<KeyIdentifier, IssuedCertificate>) ->
         U.fn(TA, 'TrustAnchorObjects', 'next_update', external_body=True, ensures=[('assumed', 'r == next_update_of(weeks)')]),
         U.fn(TA, 'TrustAnchorObjects', 'issued_certs_objects', external_body=True, ensures=[('assumed', 'r@ == issued_objects(self.issued@)')]),
         U.fn(TA, 'TrustAnchorObjects', 'republish',
-             closures={0: {'header': '|m: BuiltManifest| -> (o: PublishedManifest)', 'ensures': 'o == m.0'}},
+             closures={'|m|': {'header': '|m: BuiltManifest| -> (o: PublishedManifest)', 'ensures': 'o == m.0'}},
              requires=[('km', km), ('no_overflow', 'mft_number_override is None ==> old(self).revision.number < u64::MAX')],
              ensures=[
                  ('next_number_or_operator_override', '''r is Ok ==> final(self).revision.number == (match mft_number_override { Some(n) => n, None => (old(self).revision.number + 1) as u64 })'''),
